@@ -309,7 +309,7 @@ func relabel(s hotstuff.QuorumSignature, id hotstuff.ID) hotstuff.QuorumSignatur
 }
 
 func TestC09Kauri(t *testing.T) {
-	common.Check(t, "C09", "TestC09Kauri", 1500, 40000, func(rt *rapid.T) kauriCase {
+	common.Check(t, "C09", "TestC09Kauri", 5000, 120000, func(rt *rapid.T) kauriCase {
 		c := kauriCase{Scheme: rapid.SampledFrom([]string{"ecdsa", "eddsa", "ecdsa", "eddsa", "bls12"}).Draw(rt, "scheme")}
 		c.N = rapid.SampledFrom([]int{7, 7, 10, 13}).Draw(rt, "n")
 		if c.Scheme == "bls12" {
